@@ -47,7 +47,7 @@
 /* source seam: struct out_data (object of mpt_output_remote) is private to this file */
 #include "output_remote.c"
 
-#define MAXP   64      /* packets in flight per direction */
+#define MAXP   4096      /* packets in flight per direction */
 #define MAXW   2048    /* waiters (callers of A: 1.., callers of B: 1001..) */
 #define MAXH   16
 #define MAXREC 16
